@@ -108,8 +108,9 @@ class BigQuery(Dialect):
 
     @staticmethod
     def prepare_ref_statement(ref_statement: Dict):
-        ref_statement["dataset"] = ref_statement["schema"]
-        del ref_statement["schema"]
+        if "schema" in ref_statement:
+            ref_statement["dataset"] = ref_statement["schema"]
+            del ref_statement["schema"]
 
     def to_dict(self):
         output = {}
